@@ -531,12 +531,12 @@ func (w *crashWorker) judgeRecovery(rw int, salt uint64, dir string, cc crashCtx
 	r.readLayout()
 
 	// what the store says it holds
-	var obsLast uint64
+	var obsFirst, obsLast uint64
 	var hs raftpb.HardState
 	var snap raftpb.Snapshot
 	var hsErr, snErr error
 	if p := vf.Catch(func() {
-		_, obsLast = r.st.GetFirstLast()
+		obsFirst, obsLast = r.st.GetFirstLast()
 		hs, hsErr = r.st.HardState()
 		snap, snErr = r.st.Snapshot()
 	}); p != nil {
@@ -569,6 +569,13 @@ func (w *crashWorker) judgeRecovery(rw int, salt uint64, dir string, cc crashCtx
 		fi := batch[0].Index
 		if obsLast == old.lastEnt() {
 			cands = append(cands, candidate{"acknowledged", old})
+		}
+		if !old.empty() && fi == old.first() && obsFirst == 1 && obsLast == 0 {
+			// conflict at the first retained index: everything was discarded, nothing of the
+			// batch is there yet — an empty log (which reports first index 1)
+			t := old.clone()
+			t.ents, t.bytes = nil, 0
+			cands = append(cands, candidate{"acknowledged-with-tail-discarded", t})
 		}
 		if !old.empty() && obsLast < old.lastEnt() && obsLast+1 >= fi {
 			t := old.clone()
